@@ -51,6 +51,8 @@ type vfC06Case struct {
 	Packet vfPacketSpec  `json:"packet"`
 	// Before: packets routed through the same router before Packet (routing must not depend on earlier traffic)
 	Before []vfPacketSpec `json:"before,omitempty"`
+	// RealClient: a non-stanza packet is routed with a real *Client as the sender instead of a recording stub
+	RealClient bool `json:"real_client,omitempty"`
 }
 
 type vfRecSender struct {
@@ -179,8 +181,8 @@ func vfGenPacket(r *rand.Rand, n int) vfPacketSpec {
 		p.XML = "<presence" + attrs() + "><show>away</show></presence>"
 	case 4:
 		p.Kind = "nonza"
-		p.XML = []string{`<r xmlns="urn:xmpp:sm:3"/>`, `<enabled xmlns="urn:xmpp:sm:3" id="x"/>`, `<success xmlns="urn:ietf:params:xml:ns:xmpp-sasl"/>`,
-			`<stream:features><bind xmlns="urn:ietf:params:xml:ns:xmpp-bind"/></stream:features>`, `<stream:error><conflict xmlns="urn:ietf:params:xml:ns:xmpp-streams"/></stream:error>`}[r.Intn(5)]
+		p.XML = []string{`<r xmlns="urn:xmpp:sm:3"/>`, `<a xmlns="urn:xmpp:sm:3" h="0"/>`, `<a xmlns="urn:xmpp:sm:3" h="3"/>`, `<enabled xmlns="urn:xmpp:sm:3" id="x"/>`, `<success xmlns="urn:ietf:params:xml:ns:xmpp-sasl"/>`,
+			`<stream:features><bind xmlns="urn:ietf:params:xml:ns:xmpp-bind"/></stream:features>`, `<stream:error><conflict xmlns="urn:ietf:params:xml:ns:xmpp-streams"/></stream:error>`}[r.Intn(7)]
 	default:
 		p.Kind = "iq"
 		p.Type = []string{"get", "set", "result", "error", "get", "set"}[r.Intn(6)]
@@ -340,6 +342,17 @@ func vfC06Run(run *vfkit.Run, cs vfC06Case) {
 	}
 	snd := &vfRecSender{}
 	want, decided := vfRefRoute(cs)
+	// A packet that is not a stanza gives rise to no reply, so it can just as well arrive through a real Client (which
+	// is what happens in production; the router does some stream-management bookkeeping of its own for a Client)
+	var sender Sender = snd
+	if cs.Packet.Kind == "nonza" && cs.RealClient {
+		rc, err := NewClient(&Config{TransportConfiguration: TransportConfiguration{Address: "127.0.0.1:1"}, Jid: "me@example.net/x", Credential: Password("x"), Insecure: true, StreamManagementEnable: true}, router, func(error) {})
+		if err == nil {
+			rc.Session = &Session{SMState: SMState{UnAckQueue: stanza.NewUnAckQueue()}}
+			sender = rc
+			run.Count("nonstanza_packets_routed_for_a_real_client", 1)
+		}
+	}
 	for _, b := range cs.Before {
 		if bp, err := vfParseOne(b.XML); err == nil {
 			router.route(&vfRecSender{}, bp)
@@ -348,7 +361,7 @@ func vfC06Run(run *vfkit.Run, cs vfC06Case) {
 	mu.Lock()
 	calls, callPkts = nil, nil
 	mu.Unlock()
-	router.route(snd, pkt)
+	router.route(sender, pkt)
 	if !decided {
 		run.Count("undecided_by_documentation", 1)
 		return
@@ -465,7 +478,7 @@ func TestVf_C06(t *testing.T) {
 		if c%8 == 0 || r.Intn(16) == 0 {
 			table, history = vfGenRoutes(r), nil
 		}
-		cs := vfC06Case{Routes: table, Packet: vfGenPacket(r, c), Before: append([]vfPacketSpec(nil), history...)}
+		cs := vfC06Case{Routes: table, Packet: vfGenPacket(r, c), Before: append([]vfPacketSpec(nil), history...), RealClient: c%2 == 0}
 		history = append(history, cs.Packet)
 		if len(cs.Before) > 0 {
 			run.Count("packets_routed_after_other_traffic", 1)
@@ -480,7 +493,95 @@ func TestVf_C06(t *testing.T) {
 		}
 		vfC06Run(run, cs)
 	}
+	// concurrent routing: a Client hands every stanza to the router on its own goroutine, so one table is asked about
+	// many packets at once; each packet must still get the handler the reference names, and only that one
+	for round := 0; round < vfkit.Pick(12, 400) && !run.Enough(); round++ {
+		vfC06Concurrent(run, vfGenRoutes(r), r, round)
+	}
 	if run.NViolations() > 0 {
 		t.Fail()
+	}
+}
+
+func vfC06Concurrent(run *vfkit.Run, table []vfRouteSpec, r *rand.Rand, round int) {
+	router := NewRouter()
+	var mu sync.Mutex
+	ran := map[string][]int{}
+	for i, rs := range table {
+		i := i
+		rt := router.NewRoute()
+		for _, m := range rs.Matchers {
+			args := append([]string(nil), m.Args...)
+			switch m.Kind {
+			case "packet":
+				rt.Packet(args[0])
+			case "type":
+				rt.StanzaType(args...)
+			case "ns":
+				rt.IQNamespaces(args...)
+			}
+		}
+		rt.HandlerFunc(func(s Sender, p stanza.Packet) {
+			mu.Lock()
+			_, id := vfPacketId(p)
+			ran[id] = append(ran[id], i)
+			mu.Unlock()
+		})
+	}
+	const G, N = 8, 4000
+	type job struct {
+		spec vfPacketSpec
+		pkt  stanza.Packet
+	}
+	jobs := make([][]job, G)
+	for g := 0; g < G; g++ {
+		for k := 0; k < N; k++ {
+			ps := vfGenPacket(r, round*1000000+g*100000+k)
+			if ps.Kind == "nonza" {
+				continue
+			}
+			if pkt, err := vfParseOne(ps.XML); err == nil {
+				jobs[g] = append(jobs[g], job{ps, pkt})
+			}
+		}
+	}
+	var wg sync.WaitGroup
+	panicked := make(chan interface{}, G)
+	for g := 0; g < G; g++ {
+		wg.Add(1)
+		go func(g int) {
+			defer wg.Done()
+			defer func() {
+				if p := recover(); p != nil {
+					panicked <- p
+				}
+			}()
+			for _, j := range jobs[g] {
+				router.route(&vfRecSender{}, j.pkt)
+			}
+		}(g)
+	}
+	wg.Wait()
+	run.CaseQuiet()
+	select {
+	case p := <-panicked:
+		run.Violation("C06/panic:concurrent-routing", fmt.Sprintf("panic %v while %d goroutines routed through one table", p, G), vfC06Case{Routes: table})
+		return
+	default:
+	}
+	for g := 0; g < G; g++ {
+		for _, j := range jobs[g] {
+			cs := vfC06Case{Routes: table, Packet: j.spec}
+			want, decided := vfRefRoute(cs)
+			if !decided {
+				continue
+			}
+			got := ran[j.spec.Id]
+			if want >= 0 && (len(got) != 1 || got[0] != want) || want < 0 && len(got) != 0 {
+				run.Violation("C06/wrong-handler:concurrent-routing", fmt.Sprintf("%d goroutines routing through one table: packet %s - reference says route %d, handlers that ran: %v", G, j.spec.XML, want, got), cs)
+				return
+			}
+			run.Count("packets_routed_concurrently", 1)
+		}
 	}
 }
